@@ -826,11 +826,22 @@ func c16DomainPatterns(c *Ctx, n int) {
 	qdoms := []string{"d1", "d2", "d3"}
 	perms := [][]string{{"data1", "read"}, {"data2", "read"}}
 	for k := 0; k < n; k++ {
-		late := k%2 == 1
-		mm, _ := model.NewModelFromString(c16DomPatText)
+		late := k%3 == 1
+		auto := k%3 == 2
+		text := c16DomPatText
+		if auto {
+			// the matcher text keyMatch(r.dom, p.dom) makes casbin register KeyMatch as domain
+			// matching function by itself -- also for the role managers of a model installed later
+			text = strings.Replace(c16DomPatText, `(r.dom == p.dom || p.dom == "*")`, "keyMatch(r.dom, p.dom)", 1)
+		}
+		mm, _ := model.NewModelFromString(text)
 		e, _ := casbin.NewEnforcer(mm)
 		var trace []string
-		if !late {
+		if auto {
+			m2, _ := model.NewModelFromString(text)
+			e.SetModel(m2)
+			trace = append(trace, "matcher with keyMatch(r.dom, p.dom); SetModel(the same text)")
+		} else if !late {
 			e.AddNamedDomainMatchingFunc("g", "keyMatch", util.KeyMatch)
 		}
 		for i := 1 + c.Rng.Intn(5); i > 0; i-- {
